@@ -78,19 +78,19 @@ CLAIMED = {
         technique='one-step induction: the real HighJumpCompetition executed symbolically from a symbolic pre-state (symbolic heights, symbolic result-card strings, flags tied to the cards by a checked invariant) with one arbitrary call; z3 obligations for refusal/acceptance/log/state-order',
         text='Call histories are not enumerated: every state of the regular phase and of the first jump-off height within the bounds is a solver variable assignment, one real call is executed from it, and the clauses are z3 obligations over '
              'pre/post terms; the invariant is shown inductive, so histories of any length inside the bounds are covered. Counterexamples are rebuilt through the public API before being reported.',
-        note='Trusted: the regular-phase / first-jump-off-height representation invariant (harness/hj.py), validated on every path by rebuilding the solver witness through the public API and comparing all fields, and inductively by clause inv; z3 LIA. Bounds: quick 2 athletes x 3 heights on the card, thorough 3 x 3; deeper jump-offs and from_matrix parsing are outside.'),
+        note='Trusted: the regular-phase / first- and second-jump-off-height representation invariant (highest_cleared_index among equal heights follows the code under test, probed concretely) (harness/hj.py), validated on every path by rebuilding the solver witness through the public API and comparing all fields, and inductively by clause inv; z3 LIA. Bounds: quick 2 athletes x 3 heights on the card, thorough 3 x 3; deeper jump-offs and from_matrix parsing are outside.'),
     'C03': dict(
         category='model_checking', design_ref='DESIGN.md section 3 C03, 2.5',
         technique='same one-step symbolic execution; post-state bests and places compared (z3) with the countback ranking computed from the cards alone; jump-off result clauses from first-jump-off-height pre-states',
         text='After every accepted trial from every symbolic pre-state within the bounds: best == greatest height on the card; whenever the post-state is won/finished/drawn/jumpoff the real places equal countback on the cards; '
              'a finished competition has one winner; after a jump-off the survivor is first and the other participants stay ahead of those not tied for first.',
-        note='Trusted: the regular-phase / first-jump-off-height representation invariant (harness/hj.py), validated on every path by rebuilding the solver witness through the public API and comparing all fields, and inductively by clause inv; z3 LIA. Bounds: quick 2 athletes x 3 heights on the card, thorough 3 x 3; deeper jump-offs and from_matrix parsing are outside.'),
+        note='Trusted: the regular-phase / first- and second-jump-off-height representation invariant (highest_cleared_index among equal heights follows the code under test, probed concretely) (harness/hj.py), validated on every path by rebuilding the solver witness through the public API and comparing all fields, and inductively by clause inv; z3 LIA. Bounds: quick 2 athletes x 3 heights on the card, thorough 3 x 3; deeper jump-offs and from_matrix parsing are outside.'),
     'C08': dict(
         category='model_checking', design_ref='DESIGN.md section 3 C08, 2.5',
         technique='diamond (commutation) lemma by symbolic execution of two real calls in both orders from one symbolic pre-state; log-append lemma; card-determines-state by witness rebuild',
         text='Order independence is decided compositionally: for every pair of athletes and every two trial kinds the two orders are accepted alike and end in observationally equal states (z3 obligation over symbolic pre-states), '
              'which by induction on adjacent transpositions covers every interleaving that keeps each athlete\'s own sequence; with the log-append lemma and determinism this gives replay equivalence.',
-        note='Trusted: the regular-phase / first-jump-off-height representation invariant (harness/hj.py), validated on every path by rebuilding the solver witness through the public API and comparing all fields, and inductively by clause inv; z3 LIA. Bounds: quick 2 athletes x 2 heights on the card (plus the three-athlete tie-order shapes), thorough 3 x 3; deeper jump-offs and from_matrix parsing are outside. to_matrix/from_matrix run on concretised witnesses only.'),
+        note='Trusted: the regular-phase / first- and second-jump-off-height representation invariant (highest_cleared_index among equal heights follows the code under test, probed concretely) (harness/hj.py), validated on every path by rebuilding the solver witness through the public API and comparing all fields, and inductively by clause inv; z3 LIA. Bounds: quick 2 athletes x 2 heights on the card (plus the three-athlete tie-order shapes), thorough 3 x 3; deeper jump-offs and from_matrix parsing are outside. to_matrix/from_matrix run on concretised witnesses only.'),
     'C14': dict(
         category='model_checking', design_ref='DESIGN.md section 3 C14',
         technique='symbolic execution of the real AgeGrader with a real-valued symbolic age, symbolic performance and symbolic gender/event spellings; doubles as reals with monotone rounding, quotients by symbolic values as an uninterpreted function with order facts; z3 (cvc5 fallback)',
@@ -171,7 +171,9 @@ def main():
         ],
         'checks': checks,
         'not_applicable': na,
-        'notes': 'exit 0 ok / 1 violation (VIOLATION line) / 2 inconclusive (never success). See DESIGN.md.',
+        'notes': 'exit 0 ok / 1 violation (VIOLATION line) / 2 inconclusive (never success). See DESIGN.md. Every check restores the library\'s module '
+                 'state before each symbolic path and, except C04, carries a call-history clause (one earlier call of a stated kind, then the ordinary clauses: '
+                 'DESIGN.md section 2.10); quick and thorough differ only in job lists and bounds, never in the deciding method.',
     }
     with open(os.path.join(HERE, 'MANIFEST.json'), 'w') as f:
         json.dump(m, f, indent=1)
